@@ -204,8 +204,18 @@ type SNode struct {
 	Type   string    `json:"type"`
 	Module string    `json:"module"`
 	When   string    `json:"when"`
+	WhenP  Cond      `json:"whenp"` // the when expression taken apart (on = false: none)
 	Enums  []EnumDef `json:"enums"` // enumeration: labels with assigned values; bits: labels with positions
 	Bases  []string  `json:"ids"`   // identityref: every identity the leaf accepts
+}
+
+// Cond is a comparison of the XPath subset: path <op> literal.
+type Cond struct {
+	On   bool     `json:"on"`
+	Ctx  string   `json:"ctx"` // context node of a when: "self" | "parent"
+	Path []string `json:"path"`
+	Op   string   `json:"op"`
+	Lit  string   `json:"lit"`
 }
 
 type EnumDef struct {
